@@ -75,7 +75,8 @@ def gen_op(rng, root, depth, dflt, n, alphabet, structural=False):
         ln = rng.randrange(1, depth + 1)
         return {"k": "get", "p": [rng.randrange(-1, n + 1) for _ in range(ln)]}
     if k == "query":
-        return {"k": "query", "at": path, "q": rng.choice(["eq", "count", "isempty", "iter", "uncompress", "add", "or"])}
+        return {"k": "query", "at": path, "q": rng.choice(["eq", "count", "isempty", "iter", "uncompress", "add", "or", "iteruncompressed", "itershape",
+                                                                  "iteractive", "getshape", "getactive", "str", "maxcoord"])}
     if k == "append":
         # mostly legal (beyond the last coordinate), sometimes order-violating
         last = f.coords[-1] if f.coords else -1
@@ -101,6 +102,10 @@ def gen_op(rng, root, depth, dflt, n, alphabet, structural=False):
         return {"k": "imul", "at": path, "s": rng.choice([2, -1, 0, 1])}
     if k == "iaddf" and sub_depth == 1:
         return {"k": "iaddf", "at": path, "f": H.gen_tree(rng, 1, n, POOL, dflt)}
+    if k == "iaddf" and sub_depth >= 2:
+        # `x += y` on fibers of fibers is the nested populate loop whose body adds at the leaves: it is shown to the
+        # model as that loop (no action table) and executed through the operator
+        return {"k": "populate", "at": path, "a": H.gen_tree(rng, sub_depth, n, POOL, dflt), "acts": [], "via": "iadd"}
     if k == "imulf" and sub_depth == 1:
         return {"k": "imulf", "at": path, "f": H.gen_tree(rng, 1, n, POOL, dflt)}
     if k == "assignf":
@@ -191,6 +196,20 @@ def apply_op(root, depth, dflt, op):
                 list(f)
             elif q == "uncompress":
                 f.uncompress()
+            elif q == "iteruncompressed":
+                list(f.iterUncompressed())
+            elif q == "itershape":
+                list(f.iterShape())
+            elif q == "iteractive":
+                list(f.iterActive())
+            elif q == "getshape":
+                f.getShape(); f.getShape(all_ranks=False); f.estimateShape()
+            elif q == "getactive":
+                f.getActive()
+            elif q == "str":
+                str(f); repr(f)
+            elif q == "maxcoord":
+                f.maxCoord(); f.minCoord()
             elif q == "add" and sub_depth == 1:
                 f + f
             elif q == "or":
@@ -228,6 +247,9 @@ def apply_op(root, depth, dflt, op):
         elif k == "populate":
             acts = {tuple(p): (code, v) for p, code, v in op["acts"]}
             a = H.build_fiber(op["a"], sub_depth, dflt)
+            if op.get("via") == "iadd":
+                f += a
+                return "ok"
 
             def loop(zf, af, prefix, d):
                 for c, (zr, av) in zf << af:
